@@ -619,6 +619,33 @@ fn worker_main(thorough: bool) {
     let scs = scenarios(&scratch, thorough);
     let stdin = std::io::stdin();
     let mut line = String::new();
+    // An execution that neither finishes nor burns CPU for a minute is a deadlock under the
+    // controlled scheduler (of the gates, or of code whose build flow the gates do not fit). That is
+    // a machinery failure, not a verdict about answers: stop the worker, the parent exits 2.
+    static IN_TASK: std::sync::atomic::AtomicBool = std::sync::atomic::AtomicBool::new(false);
+    std::thread::spawn(|| {
+        let cpu = || {
+            let mut ts = libc::timespec { tv_sec: 0, tv_nsec: 0 };
+            unsafe { libc::clock_gettime(libc::CLOCK_PROCESS_CPUTIME_ID, &mut ts) };
+            std::time::Duration::new(ts.tv_sec as u64, ts.tv_nsec as u32)
+        };
+        let mut idle = 0u32;
+        let mut last = cpu();
+        loop {
+            std::thread::sleep(std::time::Duration::from_secs(1));
+            let now = cpu();
+            if IN_TASK.load(std::sync::atomic::Ordering::SeqCst) && now.saturating_sub(last) < std::time::Duration::from_millis(20) {
+                idle += 1;
+            } else {
+                idle = 0;
+            }
+            last = now;
+            if idle >= 60 {
+                eprintln!("machinery: an execution made no progress for 60 s under the controlled scheduler (deadlock); the schedule worker stops");
+                std::process::exit(3);
+            }
+        }
+    });
     loop {
         line.clear();
         if stdin.read_line(&mut line).unwrap_or(0) == 0 {
@@ -628,7 +655,9 @@ fn worker_main(thorough: bool) {
             Ok(t) => t,
             Err(_) => break,
         };
+        IN_TASK.store(true, std::sync::atomic::Ordering::SeqCst);
         let x = run(&scs[t.scenario], &t.prefix, policy_of(&t.policy), &scratch);
+        IN_TASK.store(false, std::sync::atomic::Ordering::SeqCst);
         let o = Outcome { points: x.points, diverged: x.diverged, answers: x.answers, layouts: x.layouts, events: x.belief, open_errors: x.open_errors, workers: x.workers };
         println!("{}", serde_json::to_string(&o).unwrap());
         std::io::stdout().flush().unwrap();
